@@ -155,6 +155,35 @@ def build_state(kind, rname, m, spelling):
             st.cells = ['2 0 #1 -999 imp:n=1', '3 0 999 imp:n=0', '1 0 -1 trcl=(%s) imp:n=1' % tr12]
             st.expect = {2: ('fn', lambda P: objm.pos(P) & sph.neg(P)), 1: 'neg'}
         return st
+    if spelling in ('trcl-in-fill', 'fill-in-fill'):
+        # two motions one after the other: the cell is moved by its TRCL (or its universe by an inner FILL
+        # transformation), then the universe it belongs to is placed with a FILL transformation M2
+        sph = refsem.mcnp_surface('so', [200.0])
+        objm = ref.moved(m).moved(M2)
+        st.ref = refsem.RefSurf(list(objm.comps) + list(sph.comps), objm._neg, objm._pos)
+        st.identity = False
+        st.surfs = ['1 ' + card, '999 so 200']
+        st.data = ['tr7 ' + tr12]
+        if spelling == 'trcl-in-fill':
+            st.cells = ['9 0 -999 fill=5 (%s) imp:n=1' % tr_numbers(M2), '10 0 999 imp:n=0',
+                        '1 0 -1 trcl=7 u=5 imp:n=1', '2 0 1 trcl=7 u=5 imp:n=1']
+            st.expect = {('piece', (1, 9)): 'neg', ('piece', (2, 9)): 'pos'}
+            if kind in ('rpp', 'rcc') or kind in MACRO:
+                for j in range(1, len(ref.comps) + 1):
+                    st.cells.append('%d 0 -1.%d trcl=7 u=6 imp:n=1' % (20 + j, j))
+                    st.cells.append('%d 0 1.%d trcl=7 u=6 imp:n=1' % (40 + j, j))
+                    st.cells.append('%d 0 -999 fill=6 (%s) imp:n=1' % (60 + j, tr_numbers(M2)))
+                    break      # one facet universe (the universe must be a partition): facet 1
+                st.expect[('piece', (21, 61))] = ('facet', 1, -1)
+                st.expect[('piece', (41, 61))] = ('facet', 1, 1)
+        else:
+            st.cells = ['9 0 -999 fill=5 (%s) imp:n=1' % tr_numbers(M2), '10 0 999 imp:n=0',
+                        '8 0 -999 fill=4 (7) u=5 imp:n=1', '7 0 999 u=5 imp:n=1',
+                        '1 0 -1 u=4 imp:n=1', '2 0 1 u=4 imp:n=1']
+            st.expect = {('piece', (1, 8), (1, 9)): 'neg', ('piece', (2, 8), (2, 9)): 'pos'}
+            # surface 999 also bounds the inner container, a cell of universe 5: that copy moves with M2
+            st.ref = refsem.RefSurf(list(st.ref.comps) + list(sph.moved(M2).comps), objm._neg, objm._pos)
+        return st
     if spelling.startswith('both-'):
         # the surface card carries TR7 (motion m) and the cell a TRCL (motion M2): the cell sees the surface
         # moved by m first, then by M2
@@ -329,9 +358,16 @@ def b_abbrev(ch):
     return st
 
 
+def b_double(ch):
+    kind = ch.choose('obj', OBJ_KINDS)
+    rname, m = motion_of(ch, ROTS6)
+    return build_state(kind, rname, m, ch.choose('spelling', ['trcl-in-fill', 'fill-in-fill']))
+
+
 def scenarios(tier):
     q = tier == 'quick'
     return [
+        Scn('double', b_double, None, None, 'objects x 8 motions x 2 displacements, a second motion applied on top (TRCL inside a FILLed universe, FILL inside FILL)'),
         Scn('surf-tr', b_default, None, None, 'objects x motions complete, TRn on the surface card'),
         Scn('trcl', b_trcl, None, None, 'objects x motions complete, cell TRCL=n'),
         Scn('spellings', b_spell, None, None, 'objects x 6 motions x 2 displacements x all spellings'),
@@ -432,6 +468,17 @@ def check_state(scn, st, transpose=False):
             exp[c] = (fv < 0) if sdesc[2] < 0 else (fv > 0)
         else:
             exp[c] = neg if sdesc == 'neg' else pos
+    for c in [c for c in exp if isinstance(c, tuple)]:
+        # a piece of a filled cell: the volume whose comment carries these (filler, container) pairs
+        vids = [v for v in t4.nonvirtual() if t4.provenance(v) == list(c[1:])]
+        want = exp.pop(c)
+        if len(vids) != 1:
+            if want.any():
+                return verdict(False, st, cls=dict(desc, kind='piece-missing'),
+                               msg='%d volumes for the piece %s\n%s\n%s' % (len(vids), c[1:], st.deck_text, r.body[:1500]),
+                               out=sha(r.body))
+            continue
+        exp[vids[0]] = want
     bad = oracle.compare_cells(t4, P, exp)
     stats = {'probe_points': len(P), 'objects': {st.kind}, 'spellings': {st.spelling}}
     if bad:
